@@ -413,6 +413,16 @@ func netWorker(w *mon.Worker) {
 		return n
 	}
 	serve := func(p *adnl.Peer) {
+		// what no honest server does right after the handshake, on first connects and on reconnects alike: pongs
+		// nobody asked for (a well-formed tcp.pong with an unknown random_id before the client's first ping can
+		// have been answered, then pongs of a wrong length)
+		n0 := nonce()
+		p.Send(nonce(), append(append([]byte{}, adnl.MagicPong...), n0[:8]...))
+		w.Count("net_unsolicited_pongs", 1)
+		if n0[8]&1 == 1 {
+			p.Send(nonce(), append(append([]byte{}, adnl.MagicPong...), n0[:int(n0[9])%8]...))
+			p.Send(nonce(), append(append([]byte{}, adnl.MagicPong...), n0[:12]...))
+		}
 		for {
 			payload, _, err := p.Recv()
 			if err != nil {
@@ -578,6 +588,10 @@ func netWorker(w *mon.Worker) {
 		}...)
 	}
 	for k := 0; k < j.N; k++ {
+		if j.Deep && k == j.N/2 {
+			// cut every connection once: the clients reconnect on their next send and meet the same greeting again
+			w.Count("net_forced_reconnects", int64(srv.ClosePeers(true)))
+		}
 		c := calls[k%len(calls)]
 		h.mu.Lock()
 		h.method = c.name
